@@ -243,6 +243,31 @@ func judgeC05Repeat(rec *stats.Rec, c c05Case) (string, string) {
 	return "", ""
 }
 
+// paddedCert: the certificate with its list-valued parts lengthened (gen.PadLists); self-signed bases are signed again.
+func paddedCert(der []byte, variant int) ([]byte, bool) {
+	v, err := gen.ViewCert(der)
+	if err != nil {
+		return nil, false
+	}
+	self := false
+	if pc, ok := gen.ParseCert(der); ok {
+		self = pc.SelfSigned
+	} else {
+		return nil, false
+	}
+	if !v.PadLists(variant) {
+		return nil, false
+	}
+	if self {
+		v.SelfSign()
+	}
+	out := v.DER()
+	if _, ok := gen.ParseCert(out); !ok {
+		return nil, false
+	}
+	return out, true
+}
+
 // ---- oneshot / strace ---------------------------------------------------------
 
 func oneshotPath(t *testing.T) string {
@@ -374,6 +399,28 @@ func TestC05(t *testing.T) {
 			if sig, msg := judgeC05Repeat(rec, c); msg != "" {
 				if rec.Report("c05", sig, msg, c) {
 					t.Errorf("c05 corpus %s: %s: %s", o.Name, sig, msg)
+				}
+			}
+		}
+	}
+	// ... and on the corpus with its lists lengthened (enumerated): a parser builds the slices for SAN entries, policies,
+	// key purposes and subject attributes by repeated append, so 3, 5, 6, 7 ... entries leave spare capacity - and an
+	// append to, or an in-place edit of, "a copy" of such a slice writes into the certificate itself
+	for ci, o := range co.Certs {
+		if !stats.Mine(ci) {
+			continue
+		}
+		for variant := 0; variant < 2; variant++ {
+			der, ok := paddedCert(o.DER, variant)
+			if !ok {
+				continue
+			}
+			c := c05Case{Case: engine.Case{Kind: gen.Cert, DER: der, Base: o.Name, Ops: []string{fmt.Sprintf("pad-lists(%d)", variant)}}, Reps: 2}
+			rec.Eval()
+			rec.Class("corpus_padded")
+			if sig, msg := judgeC05Repeat(rec, c); msg != "" {
+				if rec.Report("c05", sig, msg, c) {
+					t.Errorf("c05 corpus %s with padded lists: %s: %s", o.Name, sig, msg)
 				}
 			}
 		}
